@@ -44,9 +44,9 @@ ResultOk ==
     [] Ev.op = "debug" -> Ev.ok
     [] OTHER -> TRUE
 WalkOk ==
-  CASE Ev.op = "walk" -> Ev.out = SortedKV(map)
+  CASE Ev.op = "walk" -> Ev.out = SortedKV(map) /\ \A i \in 1..Len(Ev.out) : Ev.out[i][1] >= 1      \* every key is one that was stored, with its size
     [] Ev.op = "next" ->
-         IF Ev.ok THEN Ev.rk \in Dom /\ Ev.rv = map[Ev.rk]
+         IF Ev.ok THEN Ev.rk >= 1 /\ Ev.rk \in Dom /\ Ev.rv = map[Ev.rk]
          ELSE /\ (mode \in {"idle", "walk"} /\ Ev.nfail = 0) => out = SortedKV(map)
               \* after removals inside the loop a full sweep is not promised: ascending, nothing twice
               /\ (mode \in {"rmwalk", "rmwalk-r"} /\ Ev.nfail = 0) => \A i, j \in 1..Len(out) : i < j => out[i][1] < out[j][1]
@@ -139,7 +139,14 @@ TNext ==
         /\ ncmp' = (IF Comparable THEN ncmp + 1 ELSE ncmp)
         /\ nconf' = (IF Comparable /\ Conforms THEN nconf + 1 ELSE nconf)
      ELSE /\ Reject(Why, [map |-> SortedKV(map), mode |-> mode, out |-> out])
-          /\ skipping' = TRUE /\ UNCHANGED <<tree, ttid, cur, out, mode, unfinished, map, nconf, ncmp>>
+          /\ IF Why \cap Owned = {} /\ Ev.hs /\ Ev.full /\ Ev.inj = 0
+             THEN \* a deviation that belongs to another property: instead of giving up the segment, go on from the table as observed
+                  \* (keys the harness cannot identify appear as -1), so that what this run owns is still judged
+                  /\ map' = [k \in {Ev.ino[i][1] : i \in 1..Len(Ev.ino)} |->
+                               Ev.ino[CHOOSE i \in 1..Len(Ev.ino) : Ev.ino[i][1] = k][2]]
+                  /\ tree' = Ev.shape /\ ttid' = Ev.ttid /\ cur' = [tid |-> Ev.ctid, nx |-> Ev.cnx]
+                  /\ Ghost /\ UNCHANGED <<skipping, nconf, ncmp>>
+             ELSE skipping' = TRUE /\ UNCHANGED <<tree, ttid, cur, out, mode, unfinished, map, nconf, ncmp>>
   /\ (l = NT => PrintT("CONFORM " \o ToString(nconf') \o " " \o ToString(ncmp')))
 Consumed == TLCGet("stats").diameter - 1 = NT
 ==========================================================================
